@@ -194,10 +194,35 @@ def gen_op(c, rng, step):
            'set_inputs', 'order_inputs', 'order_outputs', 'replace_inputs', 'connect_right', 'connect_circuit_right',
            'connect_left', 'connect_circuit_left', 'connect_inputs', 'extend_circuit', 'add_circuit',
            'replace_subcircuit', 'make_block', 'make_block_from_slice', 'delete_block', 'remove_block', 'into_bench',
-           'copy', 'reparse', 'block_into_circuit', 'bare', 'live_args']
-    weights = [5, 6, 2, 5, 6, 2, 3, 2, 2, 2, 3, 5, 7, 4, 4, 3, 4, 3, 6, 4, 4, 2, 3, 5, 4, 2, 3, 1, 5]
+           'copy', 'reparse', 'block_into_circuit', 'bare', 'live_args', 'replace_free']
+    weights = [5, 6, 2, 5, 6, 2, 3, 2, 2, 2, 3, 5, 7, 4, 4, 3, 4, 3, 6, 4, 4, 2, 3, 5, 4, 2, 3, 1, 5, 5]
     op = rng.choices(ops, weights)[0]
     invalid = rng.random() < 0.12
+
+    if op == 'replace_free':
+        # replace_subcircuit with freely chosen correspondences: a small subcircuit whose inputs are mapped to arbitrary
+        # host gates and whose gates (declared as its outputs or not) replace arbitrary host gates.  Most such requests
+        # must be refused (they would close a cycle, or break an output); whatever is accepted must leave a well-formed DAG
+        if len(labels) < 2:
+            return gen_op_fallback(c, rng)
+        k_in = rng.randint(1, 2)
+        sg = {'fi%d' % i: ('INPUT', ()) for i in range(k_in)}
+        prev = list(sg)
+        for j in range(rng.randint(1, 3)):
+            t = rng.choice(['AND', 'OR', 'XOR', 'NOT', 'GT'])
+            ops = (rng.choice(prev),) if t == 'NOT' else (rng.choice(prev), rng.choice(prev))
+            sg['fg%d_%d' % (step, j)] = (t, ops)
+            prev.append('fg%d_%d' % (step, j))
+        inner = [l for l in sg if not l.startswith('fi')]
+        declared = rng.sample(inner, rng.randint(0, len(inner)))
+        subn = refsem.Net(['fi%d' % i for i in range(k_in)], declared, sg)
+        hosts_in = rng.sample(labels, min(k_in, len(labels)))
+        imap = {h: 'fi%d' % i for i, h in enumerate(hosts_in)}
+        non_in = [l for l in labels if c.get_gate(l).gate_type.name != 'INPUT' and l not in imap] or labels
+        omap = {rng.choice(non_in): rng.choice(inner)}
+        d = netgen.describe(subn)
+        return 'replace_subcircuit', (lambda c: c.replace_subcircuit(netgen.build(subn), dict(imap), dict(omap))), \
+            ['replace_free', d, imap, omap], True
 
     if op == 'live_args':
         # what the accessors return (the circuit's own live lists) handed straight back to a mutator
